@@ -148,7 +148,8 @@ impl<'a> PrettyPrinter<'a> {
                     !matches!(child.kind(), SyntaxKind::RightParen | SyntaxKind::Space)
                 })
                 .unwrap_or(children.len().saturating_sub(1));
-            children[i..=j].iter()
+            // `i > j + 1` when there is nothing but spaces between the parentheses.
+            children.get(i..=j).unwrap_or_default().iter()
         };
         // The stripped spaces may contain the line break that terminates a trailing line comment.
         let ends_with_line_comment = children
